@@ -20,6 +20,7 @@ META = {
     'technique': 'static analysis: abstract interpretation of the registry code over small-scope operation histories against a '
                  'reference specification; effect inventory with who-may-write table',
 }
+META['text'] += ' Round 5: the registry model has a single-inheritance chain deeper than every size constant of the lookup code and prints instances as elements of lists longer than every size constant of the sequence printer.'
 
 WRITERS = {
     # store -> functions allowed to write it
